@@ -279,6 +279,12 @@ class Env:
                 # the ordinary way: nothing of that listener is left behind in any of them
                 async with stream_events([self.hs[0].ctx.resource_added, self.hs[1].ctx.resource_added, ctx.resource_added]):
                     pass
+            early_cm = None
+            if h.idx % 4 == 1:
+                # ... and somebody who subscribed BEFORE the observed listeners leaves while they are still there
+                # (listeners come and go in any order, not last-in first-out): they stay subscribed, he is gone
+                early_cm = ctx.resource_added.stream_events(max_queue_size=3)
+                await early_cm.__aenter__()
             if h.idx % 2:
                 # the observed listener subscribes through a signal object it obtained earlier, after an earlier
                 # subscription through that very object has come and gone: still the context's channel
@@ -292,6 +298,8 @@ class Env:
             # a listener that reads what it has received only at the very end
             h.lazy_cm = ctx.resource_added.stream_events(max_queue_size=100000)
             h.lazy_it = await h.lazy_cm.__aenter__()
+            if early_cm is not None:
+                await early_cm.__aexit__(None, None, None)
             self.hs.append(h)
             return {"k": "OK"}
         h = self.hs[op["c"]]
